@@ -202,8 +202,8 @@ Proof.
     + destruct Hitem as [eof [cs' [Er [Hcs' Heof]]]]. rewrite Er.
       destruct (eof && negb (Nat.eqb k 0)) eqn:Eb.
       * (* io.EOF before the last item: nothing is left, the buffer reader fails too *)
-        apply andb_prop in Eb. destruct Eb as [-> Hk]. specialize (Heof eq_refl). subst d'.
-        destruct k; [discriminate|]. cbn [read_items_buf_n]. reflexivity.
+        apply andb_prop in Eb. destruct Eb as [-> Hk]. specialize (Heof eq_refl). subst d'. rewrite Heof.
+        destruct k; [discriminate|]. reflexivity.
       * subst d'. specialize (IH cs' e ltac:(lia)). unfold stream_items_spec in IH.
         destruct (read_items_buf_n k (lenN (concat cs')) (concat cs')) as [[xs rest]| |].
         2:{ rewrite IH. reflexivity. }
